@@ -1443,6 +1443,11 @@ func genC17(g *G, sc *Scenario, tier string, seed uint64) {
 		killed = true
 		spec = map[string]any{"killAtSink": g.Range(1, n-1)}
 		cfg["batchSize"] = 1
+		if g.P(0.4) {
+			// the job reads its one dataset as a union of one
+			cfg["source"] = map[string]any{"Type": "UnionDatasetSource", "DatasetSources": []any{map[string]any{"Name": "srcA"}}}
+			sc.Note += " union-source"
+		}
 		if n >= 3 && g.P(0.5) {
 			// ... or the first entity has been rejected (and reported by the log handler, which has no limit here) when
 			// the kill comes: the run ends as killed all the same, and a killed run is not run again
